@@ -250,6 +250,11 @@ func parent(id, tier string) int {
 			}
 			cmd := exec.Command(bin, "worker", id, tier, strconv.Itoa(b), outdir)
 			cmd.Env = append(os.Environ(), "VERIF_SEED="+strconv.FormatInt(int64(seed), 10))
+			if os.Getenv("GOMAXPROCS") == "" && id != "C12" {
+				// a worker is one goroutine of work; without this every one of the 16 workers starts 16 scheduler
+				// threads for its garbage collector (C12 sets GOMAXPROCS itself, per phase)
+				cmd.Env = append(cmd.Env, "GOMAXPROCS=2")
+			}
 			if we, ok := mon.(workerEnver); ok {
 				cmd.Env = append(cmd.Env, we.WorkerEnv(outdir, b)...)
 			}
